@@ -51,6 +51,7 @@ ModDomain(o, a) ==
   ELSE LET b == Promoted(o, a) IN
        /\ \A i \in 1..Len(a) : a[i].k = "t" /\ b[i].s # a[i].s => CastOK(TOf(a[i]), b[i].s)
        /\ o \in PromotedBin => (IsNum(b[2]) => NumCat(b[2]) <= Cat(b[1].s))
+       /\ o = "aten::sub.Tensor" => \A i \in {1, 2} : a[i].k = "t" => a[i].s # "bool"        \* ATen refuses `-` on bool tensors before promoting
        /\ InDomain(o, b)
 ModAten(o, a) == IF o = "aten::_to_copy" THEN One(CastT(TOf(a[1]), a[2].s)) ELSE Aten(o, Promoted(o, a))
 \* the export pipeline: promotion casts, then the function registered for the overload
